@@ -83,7 +83,13 @@ fn image_string(c: &FrameCase) -> String {
 pub fn check_case(c: &FrameCase, q: &QRCode) -> (Vec<(String, String)>, Option<Geometry>) {
     let mut out = vec![];
     let n = q.size;
-    let model = SvgModel { margin: c.margin, image: Some(image_string(c)), frame: c.frame, image_size: c.size, image_gap: c.gap, image_position: c.pos, ..SvgModel::default() };
+    // the module shape varies too (none, each of the six, and rounded squares under squares): the frame does not depend on it
+    let layers: Vec<(usize, Option<[u8; 4]>)> = match (c.v + 2 * c.frame + c.margin) % 8 {
+        6 => vec![],
+        7 => vec![(2, None), (0, None)],
+        s => vec![(s, None)],
+    };
+    let model = SvgModel { layers, margin: c.margin, image: Some(image_string(c)), frame: c.frame, image_size: c.size, image_gap: c.gap, image_position: c.pos, ..SvgModel::default() };
     let doc = match subject::guarded(|| model.to_builder().to_str(q)) {
         Ok(d) => d,
         Err(m) => return (vec![("panic".into(), format!("to_str panicked: {}", m))], None),
